@@ -241,13 +241,15 @@ add('C02', 'proof', 'Lean 4 theorems: recovery reproduces the syndrome for EVERY
     'error (snake fills, destabilisers incl. the co-prime billiard lemma, residual look-up table sound and total, '
     'Y-stabilizers = the 2^(gcd-1) Y-only centraliser elements, decode never raises); for the SMWPM decoders also EXISTENCE of '
     'perfect matchings at finite bias, at infinite bias for Y-only noise and at p = 0 (so decoding never fails given a maximum-cardinality matching), with the line-parity / feasibility conditions proved NECESSARY as well (iff), and the toric _cluster_graph assert (even number of defective clusters) proved never to fire on reachable syndrome arrays (Props/C02/SmwpmEven.lean); the naive decoder (sound, complete, guard); the monitor recoveryOk decides the property for all '
-    'errors with that syndrome at once. C15/C07 interface hypotheses are discharged (Props/C02/Instances.lean) — 138 theorems. '
+    'errors with that syndrome at once. C15/C07 interface hypotheses are discharged (Props/C02/Instances.lean) — 138 theorems. CMWPM edge weights (Model/StepGrid.lean: set_background with all four box shapes, distance algorithms 1 / 2 / 4; Props/C02/StepGrid.lean, 11 theorems): the background does not depend on the iteration order of the frozenset of matched pairs, both-virtual pairs are skipped, only sites carry weight, virtual-virtual distance is 0, algorithm 2 is orientation-independent while algorithm 1 is not (kernel-evaluated witness). '
     'Tie: exact comparison of sample_recovery, recorded gt.mwpm graphs / matchings / clusters / stage recoveries / final '
     'recovery given the recorded matchings, the Y decoder\'s cached operators and residual table; and every registry decoder run '
     'on real syndromes (all syndromes of the smallest codes, every weight on larger ones, all parameterisations and context '
     'models) judged by the verified monitor in Python and in Lean. PlanarCMWPMDecoder(max_iterations=0) is a known finding.',
-    TB + 'networkx matching is a parameter (any perfect matching / any maximum-cardinality matching); edge weights are not '
-    'modelled (irrelevant to C02).')
+    TB + 'networkx matching is a parameter (any perfect matching / any maximum-cardinality matching); the edge weights of '
+    'CMWPM (StepGrid, exact rationals; the real grid is float64) and of the SMWPM decoders (Model/SmwpmWeight.lean, C03) are '
+    'modelled and tied, those of the plain MWPM decoders are the lattice distances of C14 / C15; weights are irrelevant to '
+    'C02 beyond "graph construction returns".')
 add('C03', 'proof', 'Lean 4 theorems: for every size, T, step errors and measurement flips, the modelled FTP decoders return a recovery with the syndrome of the total error for ANY perfect matchings; reachable-input characterisation; time-parity / result-constructor logic; exhaustive small-domain exploration of the real decoders',
     'Proved: ftp_rotated_planar_returns_to_codespace and ftp_rotated_toric_returns_to_codespace — for all sizes, all T >= 1, all '
     'step-error sequences and all periodic measurement-flip patterns, whatever perfect matchings gt.mwpm returns for the '
